@@ -100,6 +100,7 @@ def run(tier, seed, model_ok, spec_ok, replay=None):
     cg = CondGen(g)
     pg = PathGen(cg)
     sg = SpecGen(g)
+    sg.keep_tuples = True
     n = 700 if tier == "quick" else 20000
     cases, direct = [], []
     skipped = 0
